@@ -38,11 +38,13 @@ TEXT = {
   "technique": "Coq proof (read_full returns the first n delivered bytes for every script) + correspondence + exhaustive-composition oracle",
  },
  "C08": {
-  "level": "Theorems C08_exactly_one, C08_read_full_short, C08_cut_at_boundary, C08_cut_in_body, C08_error_identity: a reader that ends or fails (error with the last "
-           "bytes or on the next call) before the frame is complete yields nil packet and the reader's error (io.EOF -> ErrUnexpectedEOF after a partial read). "
-           "The cut inside the remaining-length field is not yet proved in Coq (covered by correspondence and the oracle over every cut offset).",
+  "level": "Theorems C08_exactly_one, C08_read_full_short, C08_cut_at_boundary, C08_cut_in_header, C08_cut_in_body, C08_error_identity, "
+           "C08_packet_needs_frame: a reader that ends or fails (error with the last bytes or on the next call) after any proper prefix of a frame - at the "
+           "boundary, inside the remaining-length field after 0-3 continuation bytes, or anywhere in the body - yields nil packet and the reader's error "
+           "(io.EOF -> ErrUnexpectedEOF after a partial body read); and whenever a packet is returned the bytes obtained from the reader are exactly one "
+           "whole frame. For every script (chunking) delivering the prefix.",
   "note": NOTE,
-  "technique": "Coq proof (short reads of io.ReadFull) + correspondence on faulting scripts + every-cut-offset oracle",
+  "technique": "Coq proof (every cut point of a frame under any delivery; packet only from a whole frame) + correspondence on faulting scripts + every-cut-offset oracle",
  },
  "C16": {
   "level": "Theorems C16_dispatch (accepted frame => type = upper nibble; type 0 carries the body; types 1-15 keep the first byte - no decoder skeleton writes the "
